@@ -130,6 +130,9 @@ func cmdCheck(args []string) int {
 		if !hasProp(p.contractPropsFull(con), want) {
 			continue
 		}
+		if con.Flags["trusted"] {
+			continue // assumed contract on a repository function: listed in the evidence, not verified
+		}
 		fn := p.Funcs[k]
 		ex := newExec(p, fn, con, opts)
 		fr := &FuncResult{Key: k, Exec: ex}
